@@ -147,12 +147,16 @@ def inline_helpers(mod: Module, fn: FuncNode, cls: T.Optional[str], exclude: T.I
                 target, call = st.targets[0].id, st.value
             elif isinstance(st, ast.AnnAssign) and isinstance(st.target, ast.Name) and isinstance(st.value, ast.Call):
                 target, call = st.target.id, st.value
+            elif isinstance(st, ast.Expr) and isinstance(st.value, ast.Call):
+                target, call = '_', st.value          # phase helper called for its effects: a returned value is dropped
             else:
                 return None
             r = _resolve(mod, cls, call, excl)
             if r is None:
                 return None
             h, drop = r
+            if target == '_':
+                target = f'_ret__{h.name}'
             if _expr_bodied(h) is not None:
                 return None          # handled at expression level
             body = copy.deepcopy(_body_wo_doc(h))
@@ -240,11 +244,14 @@ def inline_test_locals(fn: FuncNode) -> FuncNode:
     for st in walk_no_nested(fn):
         if isinstance(st, ast.Assign) and len(st.targets) == 1 and isinstance(st.targets[0], ast.Name) and id(st) not in in_loop:
             nm, v = st.targets[0].id, st.value
-            if stores.get(nm) != 1 or not isinstance(v, (ast.BoolOp, ast.Compare)) and not (isinstance(v, ast.UnaryOp) and isinstance(v.op, ast.Not)):
+            is_anyall = isinstance(v, ast.Call) and isinstance(v.func, ast.Name) and v.func.id in ('any', 'all') and len(v.args) == 1 and isinstance(v.args[0], (ast.GeneratorExp, ast.ListComp))
+            if stores.get(nm) != 1 or not isinstance(v, (ast.BoolOp, ast.Compare)) and not (isinstance(v, ast.UnaryOp) and isinstance(v.op, ast.Not)) and not is_anyall:
                 continue
-            if any(isinstance(x, (ast.Call, ast.Await, ast.NamedExpr, ast.Lambda)) for x in ast.walk(v)):
+            inner_calls = [x for x in ast.walk(v) if isinstance(x, (ast.Call, ast.Await, ast.NamedExpr, ast.Lambda)) and not (is_anyall and x is v)]
+            if inner_calls:
                 continue
-            if any(stores.get(x.id, 0) for x in ast.walk(v) if isinstance(x, ast.Name)):
+            comp_vars = {x.id for g in ast.walk(v) if isinstance(g, ast.comprehension) for x in ast.walk(g.target) if isinstance(x, ast.Name)}
+            if any(stores.get(x.id, 0) for x in ast.walk(v) if isinstance(x, ast.Name) and x.id not in comp_vars):
                 continue       # reads something that is (re)assigned in the function
             cands[nm] = v
     if not cands:
@@ -294,3 +301,299 @@ def comprehension_as_loop(fn: FuncNode, out: str = 'out__') -> T.Optional[FuncNo
         ast.copy_location(s, b[0])
     ast.fix_missing_locations(new)
     return new
+
+
+# ---------------------------------------------------------------------------
+# round 7 normal forms
+
+def _single_defs(fn: FuncNode) -> T.Dict[str, ast.AST]:
+    """Locals with exactly one binding in the function, a plain `name = value` outside any loop."""
+    stores: T.Dict[str, int] = {}
+    for n in walk_no_nested(fn):
+        if isinstance(n, ast.Name) and isinstance(n.ctx, (ast.Store, ast.Del)):
+            stores[n.id] = stores.get(n.id, 0) + 1
+    params = {a.arg for a in fn.args.posonlyargs + fn.args.args + fn.args.kwonlyargs}
+    in_loop = {id(x) for n in walk_no_nested(fn) if isinstance(n, (ast.For, ast.While, ast.AsyncFor)) for x in ast.walk(n)}
+    out: T.Dict[str, ast.AST] = {}
+    for st in walk_no_nested(fn):
+        tgt, val = None, None
+        if isinstance(st, ast.Assign) and len(st.targets) == 1 and isinstance(st.targets[0], ast.Name):
+            tgt, val = st.targets[0].id, st.value
+        elif isinstance(st, ast.AnnAssign) and isinstance(st.target, ast.Name) and st.value is not None:
+            tgt, val = st.target.id, st.value
+        if tgt and stores.get(tgt) == 1 and tgt not in params and id(st) not in in_loop:
+            out[tgt] = val
+    return out
+
+
+def unroll_const_loops(fn: FuncNode) -> FuncNode:
+    """`for a, b in T:` where T is (a single-definition local bound to) a tuple/list display of equally long tuple
+    displays, or `for a in (x, y, z):`, with a body free of break/continue/else: the body is repeated once per
+    element with the loop variables replaced by the element expressions (kind A4/B5 of the catalogue)."""
+    fn = copy.deepcopy(fn)
+    defs = _single_defs(fn)
+
+    def elements(it: ast.AST) -> T.Optional[T.List[ast.AST]]:
+        if isinstance(it, ast.Name) and it.id in defs:
+            it = defs[it.id]
+        if isinstance(it, (ast.Tuple, ast.List)) and it.elts and not any(isinstance(x, ast.Starred) for x in it.elts) and len(it.elts) <= 12:
+            return list(it.elts)
+        return None
+
+    def expand(st: ast.stmt) -> T.Optional[T.List[ast.stmt]]:
+        if not isinstance(st, ast.For) or st.orelse:
+            return None
+        elts = elements(st.iter)
+        if elts is None:
+            return None
+        if any(isinstance(x, (ast.Break, ast.Continue, ast.Return, ast.Yield, ast.YieldFrom)) for b in st.body for x in ast.walk(b)):
+            return None
+        tnames = [st.target.id] if isinstance(st.target, ast.Name) else \
+            ([t.id for t in st.target.elts] if isinstance(st.target, (ast.Tuple, ast.List)) and all(isinstance(t, ast.Name) for t in st.target.elts) else None)
+        if tnames is None or (_stores(st.body) & set(tnames)):
+            return None
+        out: T.List[ast.stmt] = []
+        for e in elts:
+            if isinstance(st.target, ast.Name):
+                vals = [e]
+            elif isinstance(e, (ast.Tuple, ast.List)) and len(e.elts) == len(tnames) and not any(isinstance(x, ast.Starred) for x in e.elts):
+                vals = list(e.elts)
+            else:
+                return None
+            if not all(_simple(v) or sum(1 for b in st.body for n in ast.walk(b) if isinstance(n, ast.Name) and n.id == nm) <= 2 for nm, v in zip(tnames, vals)):
+                return None
+            mapping = dict(zip(tnames, vals))
+            out += [_Sub(mapping).visit(copy.deepcopy(b)) for b in st.body]
+        return out
+
+    def walk_block(stmts: T.List[ast.stmt]) -> T.List[ast.stmt]:
+        res: T.List[ast.stmt] = []
+        for st in stmts:
+            for field in ('body', 'orelse', 'finalbody'):
+                sub = getattr(st, field, None)
+                if isinstance(sub, list) and sub and isinstance(sub[0], ast.stmt) and not isinstance(st, (ast.FunctionDef, ast.AsyncFunctionDef, ast.ClassDef)):
+                    setattr(st, field, walk_block(sub))
+            for hd in getattr(st, 'handlers', []):
+                hd.body = walk_block(hd.body)
+            rep = expand(st)
+            if rep is not None:
+                res.extend(rep)
+            else:
+                res.append(st)
+        return res
+    fn.body = walk_block(fn.body)
+    ast.fix_missing_locations(fn)
+    return fn
+
+
+class _ConstSimplify(ast.NodeTransformer):
+    """Constant folding of branch structure: `A if True else B` -> A, `if False: ...` removed, `not True`, and/or with constants."""
+
+    def visit_IfExp(self, n: ast.IfExp) -> ast.AST:
+        self.generic_visit(n)
+        if isinstance(n.test, ast.Constant):
+            return n.body if n.test.value else n.orelse
+        return n
+
+    def visit_UnaryOp(self, n: ast.UnaryOp) -> ast.AST:
+        self.generic_visit(n)
+        if isinstance(n.op, ast.Not) and isinstance(n.operand, ast.Constant):
+            return ast.copy_location(ast.Constant(value=not n.operand.value), n)
+        return n
+
+    def visit_BoolOp(self, n: ast.BoolOp) -> ast.AST:
+        self.generic_visit(n)
+        is_and = isinstance(n.op, ast.And)
+        vals: T.List[ast.expr] = []
+        for v in n.values:
+            if isinstance(v, ast.Constant) and isinstance(v.value, bool):
+                if v.value is (not is_and):
+                    return ast.copy_location(ast.Constant(value=v.value), n) if not vals else n
+                continue
+            vals.append(v)
+        if not vals:
+            return ast.copy_location(ast.Constant(value=is_and), n)
+        if len(vals) == 1:
+            return vals[0]
+        n.values = vals
+        return n
+
+    def visit_If(self, n: ast.If) -> T.Any:
+        self.generic_visit(n)
+        if isinstance(n.test, ast.Constant):
+            return (n.body if n.test.value else n.orelse) or [ast.copy_location(ast.Pass(), n)]
+        return n
+
+
+def specialise(fn: FuncNode, assign: ast.stmt, values: T.Dict[str, T.Any]) -> FuncNode:
+    """Copy of fn in which the statement `assign` (identified by position) binds the given names to the given constants,
+    these constants are propagated to the (single-definition) names and constant branch structure is folded away."""
+    idx = [i for i, n in enumerate(ast.walk(fn)) if n is assign]
+    new = copy.deepcopy(fn)
+    target = [n for i, n in enumerate(ast.walk(new)) if idx and i == idx[0]][0]
+    consts = {k: ast.Constant(value=v) for k, v in values.items()}
+
+    class _R(ast.NodeTransformer):
+        def visit(self, node: ast.AST) -> T.Any:
+            if node is target:
+                return [ast.copy_location(ast.Assign(targets=[ast.Name(id=k, ctx=ast.Store())], value=c, lineno=getattr(node, 'lineno', 1)), node) for k, c in consts.items()]
+            return super().visit(node)
+    new = _R().visit(new)
+    ast.fix_missing_locations(new)
+    stores: T.Dict[str, int] = {}
+    for n in walk_no_nested(new):
+        if isinstance(n, ast.Name) and isinstance(n.ctx, ast.Store):
+            stores[n.id] = stores.get(n.id, 0) + 1
+    mapping = {k: c for k, c in consts.items() if stores.get(k) == 1}
+    new = _Sub(mapping).visit(new)
+    new = _ConstSimplify().visit(new)
+    ast.fix_missing_locations(new)
+    return new
+
+
+def ifexp_assign_to_if(fn: FuncNode) -> FuncNode:
+    """`x = A if c else B` (also `return A if c else B`) -> if c: x = A else: x = B   (catalogue C4)."""
+    fn = copy.deepcopy(fn)
+
+    def conv(st: ast.stmt) -> T.Optional[T.List[ast.stmt]]:
+        if isinstance(st, ast.Assign) and isinstance(st.value, ast.IfExp):
+            mk = lambda v: ast.Assign(targets=copy.deepcopy(st.targets), value=v, lineno=st.lineno)   # noqa: E731
+        elif isinstance(st, ast.AnnAssign) and isinstance(st.value, ast.IfExp) and isinstance(st.target, ast.Name):
+            mk = lambda v: ast.Assign(targets=[copy.deepcopy(st.target)], value=v, lineno=st.lineno)   # noqa: E731
+        elif isinstance(st, ast.Return) and isinstance(st.value, ast.IfExp):
+            mk = lambda v: ast.Return(value=v)   # noqa: E731
+        else:
+            return None
+        e = st.value
+        new = ast.If(test=e.test, body=[ast.copy_location(mk(e.body), st)], orelse=[ast.copy_location(mk(e.orelse), st)])
+        return [ast.copy_location(new, st)]
+
+    def walk_block(stmts: T.List[ast.stmt]) -> T.List[ast.stmt]:
+        res: T.List[ast.stmt] = []
+        for st in stmts:
+            rep = conv(st)
+            while rep is not None and len(rep) == 1 and isinstance(rep[0], ast.If):
+                # nested conditional expressions in the arms
+                node = rep[0]
+                node.body = walk_block(node.body)
+                node.orelse = walk_block(node.orelse)
+                break
+            if rep is not None:
+                res.extend(rep)
+                continue
+            for field in ('body', 'orelse', 'finalbody'):
+                sub = getattr(st, field, None)
+                if isinstance(sub, list) and sub and isinstance(sub[0], ast.stmt) and not isinstance(st, (ast.FunctionDef, ast.AsyncFunctionDef, ast.ClassDef)):
+                    setattr(st, field, walk_block(sub))
+            for hd in getattr(st, 'handlers', []):
+                hd.body = walk_block(hd.body)
+            res.append(st)
+        return res
+    fn.body = walk_block(fn.body)
+    ast.fix_missing_locations(fn)
+    return fn
+
+
+def search_loop_to_any(fn: FuncNode) -> FuncNode:
+    """`flag = False; for x in it: if cond: flag = True; break` -> `flag = any(cond for x in it)`   (catalogue D2)."""
+    fn = copy.deepcopy(fn)
+
+    def walk_block(stmts: T.List[ast.stmt]) -> T.List[ast.stmt]:
+        res: T.List[ast.stmt] = []
+        k = 0
+        while k < len(stmts):
+            st = stmts[k]
+            nxt = stmts[k + 1] if k + 1 < len(stmts) else None
+            if isinstance(st, ast.Assign) and len(st.targets) == 1 and isinstance(st.targets[0], ast.Name) and isinstance(st.value, ast.Constant) and st.value.value is False \
+                    and isinstance(nxt, ast.For) and not nxt.orelse and len(nxt.body) == 1 and isinstance(nxt.body[0], ast.If) and not nxt.body[0].orelse:
+                flag = st.targets[0].id
+                body = nxt.body[0].body
+                sets = len(body) in (1, 2) and isinstance(body[0], ast.Assign) and len(body[0].targets) == 1 and norm_name(body[0].targets[0]) == flag \
+                    and isinstance(body[0].value, ast.Constant) and body[0].value.value is True and (len(body) == 1 or isinstance(body[1], ast.Break))
+                if sets:
+                    gen = ast.GeneratorExp(elt=nxt.body[0].test, generators=[ast.comprehension(target=nxt.target, iter=nxt.iter, ifs=[], is_async=0)])
+                    new = ast.Assign(targets=[ast.Name(id=flag, ctx=ast.Store())], value=ast.Call(func=ast.Name(id='any', ctx=ast.Load()), args=[gen], keywords=[]), lineno=st.lineno)
+                    res.append(ast.copy_location(new, st))
+                    k += 2
+                    continue
+            for field in ('body', 'orelse', 'finalbody'):
+                sub = getattr(st, field, None)
+                if isinstance(sub, list) and sub and isinstance(sub[0], ast.stmt) and not isinstance(st, (ast.FunctionDef, ast.AsyncFunctionDef, ast.ClassDef)):
+                    setattr(st, field, walk_block(sub))
+            res.append(st)
+            k += 1
+        return res
+    fn.body = walk_block(fn.body)
+    ast.fix_missing_locations(fn)
+    return fn
+
+
+def norm_name(e: ast.AST) -> T.Optional[str]:
+    return e.id if isinstance(e, ast.Name) else None
+
+
+def index_loop_to_direct(fn: FuncNode) -> FuncNode:
+    """`for k in range(len(xs)): v = xs[k]; ...` (k not used otherwise) -> `for v in xs: ...`   (catalogue D1)."""
+    fn = copy.deepcopy(fn)
+    for lp in [n for n in ast.walk(fn) if isinstance(n, ast.For)]:
+        it = lp.iter
+        if not (isinstance(lp.target, ast.Name) and isinstance(it, ast.Call) and isinstance(it.func, ast.Name) and it.func.id == 'range' and len(it.args) == 1
+                and isinstance(it.args[0], ast.Call) and isinstance(it.args[0].func, ast.Name) and it.args[0].func.id == 'len' and len(it.args[0].args) == 1):
+            continue
+        k, xs = lp.target.id, it.args[0].args[0]
+        first = lp.body[0] if lp.body else None
+        if not (isinstance(first, ast.Assign) and len(first.targets) == 1 and isinstance(first.targets[0], ast.Name) and isinstance(first.value, ast.Subscript)
+                and ast.dump(first.value.value) == ast.dump(xs) and isinstance(first.value.slice, ast.Name) and first.value.slice.id == k):
+            continue
+        uses = sum(1 for b in lp.body for n in ast.walk(b) if isinstance(n, ast.Name) and n.id == k)
+        if uses != 1 or len(lp.body) < 2:
+            continue
+        lp.target = ast.copy_location(ast.Name(id=first.targets[0].id, ctx=ast.Store()), lp.target)
+        lp.iter = xs
+        lp.body = lp.body[1:]
+    ast.fix_missing_locations(fn)
+    return fn
+
+
+def desugar_list_comp_assigns(fn: FuncNode) -> FuncNode:
+    """`xs = [ELT for v in it]` -> `xs = []; for v in it: xs.append(ELT)` with a conditional ELT split into if/else   (catalogue D3)."""
+    fn = copy.deepcopy(fn)
+
+    def conv(st: ast.stmt) -> T.Optional[T.List[ast.stmt]]:
+        if not (isinstance(st, ast.Assign) and len(st.targets) == 1 and isinstance(st.targets[0], ast.Name) and isinstance(st.value, ast.ListComp)):
+            return None
+        comp = st.value
+        if len(comp.generators) != 1 or comp.generators[0].is_async or len(comp.generators[0].ifs) > 1:
+            return None
+        g = comp.generators[0]
+        out = st.targets[0].id
+        if any(isinstance(n, ast.Name) and n.id == out for n in ast.walk(comp)):
+            return None
+
+        def app(e: ast.AST) -> ast.stmt:
+            return ast.Expr(value=ast.Call(func=ast.Attribute(value=ast.Name(id=out, ctx=ast.Load()), attr='append', ctx=ast.Load()), args=[e], keywords=[]))
+        inner: T.List[ast.stmt] = [ast.If(test=comp.elt.test, body=[app(comp.elt.body)], orelse=[app(comp.elt.orelse)])] if isinstance(comp.elt, ast.IfExp) else [app(comp.elt)]
+        if g.ifs:
+            inner = [ast.If(test=g.ifs[0], body=inner, orelse=[])]
+        new = [ast.Assign(targets=[ast.Name(id=out, ctx=ast.Store())], value=ast.List(elts=[], ctx=ast.Load()), lineno=st.lineno),
+               ast.For(target=g.target, iter=g.iter, body=inner, orelse=[], lineno=st.lineno)]
+        for s in new:
+            ast.copy_location(s, st)
+        return new
+
+    def walk_block(stmts: T.List[ast.stmt]) -> T.List[ast.stmt]:
+        res: T.List[ast.stmt] = []
+        for st in stmts:
+            rep = conv(st)
+            if rep is not None:
+                res.extend(rep)
+                continue
+            for field in ('body', 'orelse', 'finalbody'):
+                sub = getattr(st, field, None)
+                if isinstance(sub, list) and sub and isinstance(sub[0], ast.stmt) and not isinstance(st, (ast.FunctionDef, ast.AsyncFunctionDef, ast.ClassDef)):
+                    setattr(st, field, walk_block(sub))
+            res.append(st)
+        return res
+    fn.body = walk_block(fn.body)
+    ast.fix_missing_locations(fn)
+    return fn
